@@ -564,6 +564,9 @@ def _evaluate_bumps(case, layout):
     )
     for k in sorted(set(kinds)):
         res.cls(f"bump={k}")
+    H_, W_ = int(case["H"]), int(case["W"])
+    if max(H_, W_) <= patch + 2:
+        res.cls("map=tiny(<=patch+2)", "map=exactly-patch-size" if (H_, W_) == (patch, patch) else "map=near-patch-size")
     if n_invalid and kinds[0] not in ("gauss", "symmetric"):
         res.cls("invalid-channel-before-valid" if n_valid else "all-invalid")
     layout_classes(res, arr, layout, torch)
@@ -693,20 +696,29 @@ def strategy_bumps():
         patch = draw(st.sampled_from([3, 5, 5, 7, 4]))
         reach = pm.patch_reach(patch)
         margin = reach + 1
-        H = draw(st.integers(2 * margin + 1, 2 * margin + 8))
-        W = draw(st.integers(2 * margin + 1, 2 * margin + 8))
+        # "tiny": maps about as large as the refinement patch itself (the extreme of the legal size range: the
+        # patch window then covers the whole map and overhangs it for every off-centre peak)
+        tiny = draw(st.integers(0, 4)) == 0
+        if tiny:
+            H = max(2, patch + draw(st.sampled_from([-1, 0, 0, 0, 1, 2])))
+            W = max(2, patch + draw(st.sampled_from([-1, 0, 0, 0, 1, 2]))) if draw(st.integers(0, 2)) else H
+        else:
+            H = draw(st.integers(2 * margin + 1, 2 * margin + 8))
+            W = draw(st.integers(2 * margin + 1, 2 * margin + 8))
         B = draw(st.integers(1, 2))
         C = draw(st.integers(1, 4))
         thr = pm.f32(draw(st.sampled_from([0.1, 0.2, 0.2, 0.3])))
         kinds_pool = ["gauss", "gauss", "gauss", "symmetric", "symmetric", "empty", "low"] if patch != 4 else ["symmetric", "symmetric", "empty", "low"]
+        if tiny:
+            kinds_pool = ["symmetric", "symmetric", "symmetric", "empty"]  # no room for the margins a Gaussian bump needs
         chans = []
         for _ in range(B * C):
             kind = draw(st.sampled_from(kinds_pool))
             if kind == "empty":
                 chans.append({"kind": "empty", "level": draw(st.sampled_from([0.0, 0.0, 0.05]))})
                 continue
-            cellx = draw(st.integers(margin, W - 1 - margin))
-            celly = draw(st.integers(margin, H - 1 - margin))
+            cellx = draw(st.integers(margin, W - 1 - margin)) if not tiny else draw(st.integers(0, W - 1))
+            celly = draw(st.integers(margin, H - 1 - margin)) if not tiny else draw(st.integers(0, H - 1))
             if kind in ("gauss", "low"):
                 fx = draw(st.floats(-0.49, 0.49, allow_nan=False))
                 fy = draw(st.floats(-0.49, 0.49, allow_nan=False))
@@ -717,9 +729,13 @@ def strategy_bumps():
                 chans.append({"kind": kind, "cx": cellx + fx, "cy": celly + fy, "sigma": sigma, "amp": float(amp)})
                 continue
             # symmetric bump: table over (|dy|,|dx|), centre strictly largest
-            overhang = draw(st.integers(0, 3)) == 0
+            overhang = tiny or draw(st.integers(0, 3)) == 0
             R = draw(st.integers(0, min(3, (min(H, W) - 1) // 2) if overhang else 3))
-            if overhang:
+            if overhang and tiny:
+                # any cell whose support (radius R) lies inside the map
+                cellx = draw(st.integers(R, W - 1 - R))
+                celly = draw(st.integers(R, H - 1 - R))
+            elif overhang:
                 # support inside the map, window allowed to overhang the border (zero padding == zeros)
                 cellx = draw(st.sampled_from([R, W - 1 - R, cellx]))
                 celly = draw(st.sampled_from([R, H - 1 - R, celly]))
